@@ -2,3 +2,6 @@ import Props.C13
 import Props.C01
 import Props.C06
 import Props.C07
+import Props.C02
+import Props.C20
+import Props.C03
